@@ -4,13 +4,14 @@ from pvrules.rules import PURE, SELF_FIELD, agg_field, const_int, count_range, e
 from . import C12
 
 LEVEL = "other"
-EXPLANATION = ("Static MIR typestate/effect rules for HistogramTimer and LocalHistogramTimer: every construction sets observed=false (T1); the only writes of `observed` are "
-               "`= true` inside <Timer>::observe on every path (T2); observe records exactly once on the `record` edge and never otherwise, with the value elapsed_sec(self.start) (T3); "
-               "Drop records exactly on the observed==false edge (T4); the by-value stop methods call observe once with the constants {true,true,false} and drop self (T5); type level: "
-               "timers are not Clone, stop methods take self by value, `observed`/`observe` are private, nothing is leaked (T6); seconds are non-negative: Duration::as_secs_f64 of "
+EXPLANATION = ("Static MIR typestate/effect rules for HistogramTimer and LocalHistogramTimer: every construction sets observed=false (T1); `observed` is only ever set to true "
+               "(T2); each way a timer ends is checked in NORMAL FORM — the private helper methods of the timer (and stop_and_record under observe_duration) are expanded in place and "
+               "literal flags are propagated, so the cut into helpers does not matter: stop_and_record / observe_duration measure self.start.elapsed_sec() once, record exactly that value "
+               "exactly once into the timer's histogram and raise `observed` on every path; stop_and_discard records nothing, raises the flag and returns the measured value (T5); Drop "
+               "records exactly when `observed` is still false and depends on nothing else (T4); type level: timers are not Clone, stop methods take self by value, `observed` is "
+               "private, nothing is leaked (T6), also witnessed by rustc: using a timer after a stop method is error E0382 (T10); seconds are non-negative: Duration::as_secs_f64 of "
                "saturating_duration_since / the guarded coarse difference, no Instant subtraction (T7); observe_closure_duration calls f once, observes once, returns f's result (T8); a "
-               "local timer records into a private cleared clone whose Drop flushes (T9, with C12.L8/L9). Abstractly interpreting `observed` in {false,true} over T2-T5 gives exactly one "
-               "record for record/drop and none for discard.")
+               "local timer records into a private cleared clone whose Drop flushes (T9, T9b = C12.L5).")
 ASSUMPTIONS = ["a timer leaked by the caller (mem::forget) never records", "Duration::as_secs_f64 is non-negative", "unwinding drops run Drop::drop like normal drops (Rust semantics)"]
 H = "prometheus::histogram::"
 P = lambda i: ("param", i)  # noqa: E731
@@ -241,10 +242,10 @@ def rule_T9(ctx, f):
 def run(ctx):
     f = ctx.facts("default")
     ctx.rule("T1", "every aggregate construction of a timer sets observed=false, start=Instant::now*(), and stores the given histogram")
-    ctx.rule("T2", "the only writes to `observed` in the crate are `= true` inside <Timer>::observe, on every path through it")
-    ctx.rule("T3", "in observe(&mut self, record) the call of Histogram::observe / LocalHistogram::observe is control-dependent exactly on the true edge of `record`, count [1,1] there and [0,0] otherwise")
-    ctx.rule("T4", "Drop::drop calls Self::observe(self, true) exactly on the observed == false edge and nothing else")
-    ctx.rule("T5", "observe_duration / stop_and_record / stop_and_discard call observe exactly once with {true, true, false} and drop self on every path")
+    ctx.rule("T2", "every write to `observed` in the crate stores `true`")
+    ctx.rule("T4", "Drop::drop (private helpers expanded): on the observed == false edge exactly one record of self.start.elapsed_sec() into the timer's histogram, on the true edge none; nothing else decides")
+    ctx.rule("T5", "observe_duration / stop_and_record / stop_and_discard (private helpers expanded, literal flags propagated): one measurement of self.start.elapsed_sec(); exactly one record of that "
+                   "value for the first two, none for stop_and_discard; `observed` raised on every path; the measured value returned; no other effect")
     ctx.rule("T6", "type level: timers are not Clone/Copy, stop methods take self by value, `observed` and `observe` are private, Drop is implemented")
     for ty in TIMERS:
         ctx.run_rule("T1", lambda c, t=ty: rule_timer(c, f, t))
